@@ -456,6 +456,16 @@ pub fn judge(c: &Case04) -> Vec<(String, String)> {
         }
         Ok(Ok(dom)) => {
             let forest = canon_forest(&dom, dom.root().children(), FloatMode::Exact);
+            // the same conformant file through a reader that delivers 5 bytes per call
+            match crate::evidence::guarded(|| rbx_binary::from_reader(crate::codec::Dribble { data: &bytes, pos: 0, step: 5 }).map_err(|e| e.to_string())) {
+                Ok(Ok(d2)) => {
+                    if canon_forest(&d2, d2.root().children(), FloatMode::Exact) != forest {
+                        out.push(("c04|reader-delivery|different-dom".into(), format!("a conformant file ({}) decodes differently when the reader delivers 5 bytes per call", c.dim)));
+                    }
+                }
+                Ok(Err(e)) => out.push(("c04|reader-delivery|rejected".into(), format!("a conformant file ({}) is rejected when the reader delivers 5 bytes per call: {}", c.dim, e))),
+                Err((s, m)) => out.push((format!("c04|panic|{}", crate::evidence::panic_signature(&s, &m)), format!("panic with a 5-bytes-per-call reader: {} {}", s, m))),
+            }
             let expected = expected_for(&plan, Codec::Binary, XmlMode::Default, FloatMode::Exact);
             let diffs = diff_forest(&expected, &forest, &|_, _, _| false);
             if let Some(d) = diffs.first() {
